@@ -301,6 +301,10 @@ def rFrame (f : Frame) : Pieces :=
      | some e => [S "BETWEEN "] ++ rBound f.start ++ [S " AND "] ++ rBound e
      | none => rBound f.start)
 
+def rOptFrame : Option Frame → Pieces
+  | some f => rFrame f
+  | none => []
+
 /-- `prepare_select_distinct` -/
 def rDistinct (d : Backend) : Distinct → Pieces
   | .all => [S "ALL"]
@@ -378,6 +382,41 @@ def rSelfAssign : Bool → List String → Pieces
   | _, [] => []
   | first, c :: r => (if first then [] else [S ", "]) ++ [.id c, S " = ", .id c] ++ rSelfAssign false r
 
+/-- `LIMIT n` / `OFFSET n` with a bound value -/
+def rLimit (kw : String) : Option Val → Pieces
+  | some v => [S kw, .p v]
+  | none => []
+
+def rAlias : Option String → Pieces
+  | some a => [S " AS ", .id a]
+  | none => []
+
+def rOptDistinct (d : Backend) : Option Distinct → Pieces
+  | some x => rDistinct d x ++ [S " "]
+  | none => []
+
+def rOptLock (d : Backend) : Option Lock → Pieces
+  | some l => [S " "] ++ rLock d l
+  | none => []
+
+def rOptSample : Option Sample → Pieces
+  | some s => rSample s
+  | none => []
+
+def rOptSubOp (d : Backend) : Option SubOp → Pieces
+  | some o => rSubOp d o
+  | none => []
+
+def rMaterialized : Option Bool → Pieces
+  | some true => [S " MATERIALIZED "]
+  | some false => [S "NOT MATERIALIZED "]
+  | none => []
+
+/-- MySQL `prepare_update_column`: the table name that qualifies the SET columns -/
+def updateQual : Option TRef → Option String
+  | some (.named ⟨[t], none⟩) => some t
+  | _ => none
+
 def TRefList.isNil : TRefList → Bool | .nil => true | _ => false
 def OrderList.isNil : OrderList → Bool | .nil => true | _ => false
 def CteList.isNil : CteList → Bool | .nil => true | _ => false
@@ -427,7 +466,7 @@ def rEx (d : Backend) : Ex → Pieces
       let dropR := greater d (shapeOf r) outer || (outer.isLike && isBinWith r (· == .std 26)) ||
         (o == .std 25 && isCustom r)
       binLeft d l o (rEx d l) ++ wrap dropR (rEx d r)
-  | .subq o q => (match o with | some o => rSubOp d o | none => []) ++ [S "("] ++ rQuery d q ++ [S ")"]
+  | .subq o q => rOptSubOp d o ++ [S "("] ++ rQuery d q ++ [S ")"]
   | .value v => [.p v]
   | .values vs => [S "("] ++ rVals true vs ++ [S ")"]
   | .cust s => [.raw s.toList]
@@ -440,7 +479,7 @@ def rEx (d : Backend) : Ex → Pieces
         (if ty.endsWith "[]" then [.id (ty.dropEnd 2).toString, S "[]"] else [.id ty]) ++ [S ")"]
     | _ => rEx d e
   | .case whens els =>
-    [S "(CASE"] ++ rCase d whens ++ (match els with | some e => [S " ELSE "] ++ rEx d e | none => []) ++ [S " END)"]
+    [S "(CASE"] ++ rCase d whens ++ rOptEx d " ELSE " els ++ [S " END)"]
   | .const v => [.c v]
 /-- the two bounds of `BETWEEN`, each parenthesised against BETWEEN itself -/
 def rBounds (d : Backend) (outer : Oper) : Ex → Pieces
@@ -453,6 +492,10 @@ def rExList (d : Backend) : Bool → ExList → Pieces
 def rExEach (d : Backend) : ExList → List Pieces
   | .nil => []
   | .cons e r => rEx d e :: rExEach d r
+/-- an optional expression after a keyword -/
+def rOptEx (d : Backend) (pre : String) : Option Ex → Pieces
+  | some e => [S pre] ++ rEx d e
+  | none => []
 /-- `prepare_function_arguments` -/
 def rArgs (d : Backend) : Bool → List Bool → ExList → Pieces
   | _, _, .nil => []
@@ -486,7 +529,7 @@ def rChain (d : Backend) (len : Nat) : Bool → ChainList → Pieces
   | _, .nil => []
   | first, .cons isOr e r =>
     (if first then [] else [S " ", S (if isOr then "OR" else "AND"), S " "]) ++
-      wrap (!(len > 1 && bothBinary e)) (rEx d e) ++ rChain d len false r
+      wrap (!(len > 1 && (bothBinary e || !greater d (shapeOf e) (.bin (.std 0))))) (rEx d e) ++ rChain d len false r
 /-- `SubQueryStatement::prepare_statement` -/
 def rQuery (d : Backend) : Query → Pieces
   | .sel s => rSelect d s
@@ -497,58 +540,64 @@ def rQuery (d : Backend) : Query → Pieces
 /-- `prepare_select_statement` -/
 def rSelect (d : Backend) : Select → Pieces
   | .mk with_ distinct selects from_ hints sample joins where_ groups having unions orders limit offset lock windowName window =>
-    (match with_ with | some w => rWith d w | none => []) ++
+    rOptWith d with_ ++
     [S "SELECT "] ++
-    (match distinct with | some x => rDistinct d x ++ [S " "] | none => []) ++
+    rOptDistinct d distinct ++
     rSelList d true selects ++
     (if TRefList.isNil from_ then []
      else [S " FROM "] ++ rTRefs d true from_ ++
         (if d == .mysql then rHints true hints else []) ++
-        (if d == .postgres then (match sample with | some s => rSample s | none => []) else [])) ++
+        (if d == .postgres then rOptSample sample else [])) ++
     rJoins d joins ++
     rHolder d "WHERE" where_ ++
     (if groups.isEmpty then [] else [S " GROUP BY "] ++ rExList d true groups) ++
     rHolder d "HAVING" having ++
     rUnions d unions ++
     (if OrderList.isNil orders then [] else [S " ORDER BY "] ++ rOrders d true orders) ++
-    (match limit with | some v => [S " LIMIT ", .p v] | none => []) ++
-    (match offset with | some v => [S " OFFSET ", .p v] | none => []) ++
-    (match lock with | some l => [S " "] ++ rLock d l | none => []) ++
-    (match window with
-     | some w => [S " WINDOW ", .id windowName, S " AS "] ++ rWindow d w
-     | none => [])
+    rLimit " LIMIT " limit ++
+    rLimit " OFFSET " offset ++
+    rOptLock d lock ++
+    rOptWindow d windowName window
+def rOptWith (d : Backend) : Option WithClause → Pieces
+  | some w => rWith d w
+  | none => []
+/-- the named `WINDOW` clause -/
+def rOptWindow (d : Backend) (name : String) : Option Window → Pieces
+  | some w => [S " WINDOW ", .id name, S " AS "] ++ rWindow d w
+  | none => []
 /-- `prepare_select_expr` -/
 def rSelList (d : Backend) : Bool → SelList → Pieces
   | _, .nil => []
   | first, .cons e win alias r =>
-    (if first then [] else [S ", "]) ++ rEx d e ++
-      (match win with
-       | .none => []
-       | .name n => [S " OVER ", .id n]
-       | .query w => [S " OVER ", S "( "] ++ rWindow d w ++ [S " )"]) ++
-      (match alias with | some a => [S " AS ", .id a] | none => []) ++
-      rSelList d false r
+    (if first then [] else [S ", "]) ++ rEx d e ++ rWinSel d win ++ rAlias alias ++ rSelList d false r
+def rWinSel (d : Backend) : WinSel → Pieces
+  | .none => []
+  | .name n => [S " OVER ", .id n]
+  | .query w => [S " OVER ", S "( "] ++ rWindow d w ++ [S " )"]
 /-- `prepare_window_statement` -/
 def rWindow (d : Backend) : Window → Pieces
   | .mk partition orders frame =>
     (if partition.isEmpty then [] else [S "PARTITION BY "] ++ rExList d true partition) ++
     (if OrderList.isNil orders then [] else [S " ORDER BY "] ++ rOrders d true orders) ++
-    (match frame with | some f => rFrame f | none => [])
+    rOptFrame frame
 /-- `prepare_order_expr` per backend, comma separated -/
 def rOrders (d : Backend) : Bool → OrderList → Pieces
   | _, .nil => []
   | first, .cons e k nulls r =>
     let key := rEx d e
     let isField := match k with | .field _ => true | _ => false
+    -- the ordered expression as an operand of `=` (FIELD order) / of `IS NULL` (MySQL emulation)
+    let keyEq := wrap (greater d (shapeOf e) (.bin (.std 10))) key
+    let keyIs := wrap (greater d (shapeOf e) (.bin (.std 4))) key
     let core := (if isField then [] else key) ++ rOrderKw k ++
-      (match k with | .field vs => [S "CASE "] ++ rFieldArms key 0 vs | _ => [])
+      (match k with | .field vs => [S "CASE "] ++ rFieldArms keyEq 0 vs | _ => [])
     (if first then [] else [S ", "]) ++
       (match d with
        | .mysql =>
          (match nulls with
           | none => []
-          | some false => key ++ [S " IS NULL ASC, "]
-          | some true => key ++ [S " IS NULL DESC, "]) ++ core
+          | some false => keyIs ++ [S " IS NULL ASC, "]
+          | some true => keyIs ++ [S " IS NULL DESC, "]) ++ core
        | _ =>
          core ++ (match nulls with | none => [] | some false => [S " NULLS LAST"] | some true => [S " NULLS FIRST"])) ++
       rOrders d false r
@@ -579,36 +628,41 @@ def rWith (d : Backend) : WithClause → Pieces
     [S "WITH "] ++ (if recursive then [S "RECURSIVE "] else []) ++
     (if CteList.isNil ctes then [.bad] else rCtes d true ctes) ++
     (if recursive && d == .postgres then
-      (match searchExpr with
-       | some e =>
-         [S (if searchBreadth then "SEARCH BREADTH FIRST BY " else "SEARCH DEPTH FIRST BY ")] ++ rEx d e ++
-           [S " SET ", .id searchAlias, S " "]
-       | none => []) ++
-      (match cycleExpr with
-       | some e => [S "CYCLE "] ++ rEx d e ++ [S " SET ", .id cycleSet, S " USING ", .id cycleUsing, S " "]
-       | none => [])
+      rSearch d searchBreadth searchAlias searchExpr ++ rCycle d cycleSet cycleUsing cycleExpr
      else [])
+def rSearch (d : Backend) (breadth : Bool) (alias : String) : Option Ex → Pieces
+  | some e =>
+    [S (if breadth then "SEARCH BREADTH FIRST BY " else "SEARCH DEPTH FIRST BY ")] ++ rEx d e ++ [S " SET ", .id alias, S " "]
+  | none => []
+def rCycle (d : Backend) (setAs using_ : String) : Option Ex → Pieces
+  | some e => [S "CYCLE "] ++ rEx d e ++ [S " SET ", .id setAs, S " USING ", .id using_, S " "]
+  | none => []
 /-- `prepare_with_query_clause_common_table` -/
 def rCtes (d : Backend) : Bool → CteList → Pieces
   | _, .nil => []
   | first, .cons name cols mat q r =>
     (if first then [] else [S ", "]) ++ [.id name] ++
-      (match cols with | [] => [S " "] | _ => [S " ("] ++ rIdents true cols ++ [S ") "]) ++
+      (if cols.isEmpty then [S " "] else [S " ("] ++ rIdents true cols ++ [S ") "]) ++
       [S "AS "] ++
-      (if d == .mysql then [] else
-        match mat with | some true => [S " MATERIALIZED "] | some false => [S "NOT MATERIALIZED "] | none => []) ++
+      (if d == .mysql then [] else rMaterialized mat) ++
       [S "("] ++ rQuery d q ++ [S ") "] ++ rCtes d false r
 /-- `prepare_insert_statement` -/
 def rInsert (d : Backend) : Insert → Pieces
   | .mk with_ replace table columns source onConflict returning defaultValues =>
-    (match with_ with | some w => rWith d w | none => []) ++
+    rOptWith d with_ ++
     [S (if replace then "REPLACE" else "INSERT")] ++
-    (match table with | some t => [S " INTO "] ++ rTRef d t | none => []) ++
+    rOptTRef d " INTO " table ++
     (if defaultValues.isSome && columns.isEmpty && InsSource.isNone source then
        [S " "] ++ (if d == .sqlite then [S "DEFAULT VALUES"] else [S "VALUES "] ++ rDefaultRows d true (defaultValues.getD 0))
      else [S " ", S "("] ++ rIdents true columns ++ [S ")"] ++ rSource d source) ++
-    (match onConflict with | some oc => rOnConflict d oc | none => []) ++
+    rOptOnConflict d onConflict ++
     rReturning d returning
+def rOptTRef (d : Backend) (pre : String) : Option TRef → Pieces
+  | some t => [S pre] ++ rTRef d t
+  | none => []
+def rOptOnConflict (d : Backend) : Option OnConflict → Pieces
+  | some oc => rOnConflict d oc
+  | none => []
 def rSource (d : Backend) : InsSource → Pieces
   | .none => []
   | .values rows => [S " ", S "VALUES "] ++ rRows d true rows
@@ -633,7 +687,7 @@ def rAction (d : Backend) : Action → Pieces
   | .none => []
   | .doNothing pk =>
     if d == .mysql then
-      (match pk with | [] => [S " IGNORE"] | _ => [S " UPDATE "] ++ rSelfAssign true pk)
+      (if pk.isEmpty then [S " IGNORE"] else [S " UPDATE "] ++ rSelfAssign true pk)
     else [S " DO NOTHING"]
   | .update l => [S (if d == .mysql then " UPDATE " else " DO UPDATE SET ")] ++ rUpds d true l
 def rUpds (d : Backend) : Bool → UpdList → Pieces
@@ -652,20 +706,24 @@ def rReturning (d : Backend) : Returning → Pieces
 def rUpdate (d : Backend) : Update → Pieces
   | .mk with_ table sets where_ orders limit returning from_ =>
     let hasFrom := !TRefList.isNil from_
-    (match with_ with | some w => rWith d w | none => []) ++
+    rOptWith d with_ ++
     [S "UPDATE "] ++
-    (match table with | some t => rTRef d t | none => []) ++
+    rOptTable d table ++
     -- MySQL `prepare_update_join`: the first FROM table and the condition as `JOIN .. ON`
-    (if d == .mysql then
-      (match from_ with | .nil => [] | .cons t _ => [S " JOIN "] ++ rTRef d t ++ rHolder d "ON" where_)
-     else []) ++
+    (if d == .mysql then rUpdateJoin d (rHolder d "ON" where_) from_ else []) ++
     [S " SET "] ++
-    rSets d (if d == .mysql && hasFrom then (match table with | some (.named ⟨[t], none⟩) => some t | _ => none) else none) true sets ++
+    rSets d (if d == .mysql && hasFrom then updateQual table else none) true sets ++
     (if d == .mysql || !hasFrom then [] else [S " FROM "] ++ rTRefs d true from_) ++
     (if d == .mysql && hasFrom then [] else rHolder d "WHERE" where_) ++
     rReturning d returning ++
     (if OrderList.isNil orders then [] else [S " ORDER BY "] ++ rOrders d true orders) ++
-    (match limit with | some v => [S " LIMIT ", .p v] | none => [])
+    rLimit " LIMIT " limit
+def rOptTable (d : Backend) : Option TRef → Pieces
+  | some t => rTRef d t
+  | none => []
+def rUpdateJoin (d : Backend) (on : Pieces) : TRefList → Pieces
+  | .nil => []
+  | .cons t _ => [S " JOIN "] ++ rTRef d t ++ on
 /-- SET list; `qual` = the table name MySQL's `prepare_update_column` prefixes -/
 def rSets (d : Backend) (qual : Option String) : Bool → SetList → Pieces
   | _, .nil => []
@@ -675,13 +733,13 @@ def rSets (d : Backend) (qual : Option String) : Bool → SetList → Pieces
 /-- `prepare_delete_statement` -/
 def rDelete (d : Backend) : Delete → Pieces
   | .mk with_ table where_ orders limit returning =>
-    (match with_ with | some w => rWith d w | none => []) ++
+    rOptWith d with_ ++
     [S "DELETE "] ++
-    (match table with | some t => [S "FROM "] ++ rTRef d t | none => []) ++
+    rOptTRef d "FROM " table ++
     rHolder d "WHERE" where_ ++
     rReturning d returning ++
     (if OrderList.isNil orders then [] else [S " ORDER BY "] ++ rOrders d true orders) ++
-    (match limit with | some v => [S " LIMIT ", .p v] | none => [])
+    rLimit " LIMIT " limit
 end
 
 end SeaQ.Render
